@@ -200,8 +200,36 @@ def _spec(e, arr, stats_none=None, have=None, norm_var=None, ip=None, f64=None, 
                 return S.lift(f64 == (op == "=="))
             if op in ("==", "!=") and any(S.show(y).startswith("getitem(self._stats.shape, 1)") for y in (a, b)):
                 return S.lift((op == "==") == dims_match)  # scenario: the coefficient count matches (or not) the stored width
+            if single is not None and rank is not None and axis is not None and any(S.show(y).find(arr + ".shape") >= 0 for y in (a, b)):
+                # the "is this one vector?" test, whatever its spelling: the lengths of the other axes are made concrete (all 1 for a
+                # single vector; none 1, or - "mixed" - some 1 and some not, for several vectors) and the test is folded
+                other_ = [k for k in range(rank) if k != axis % rank]
+                lens_ = {True: [1] * len(other_), False: [5, 4, 3][:len(other_)], "mixed": ([1, 5, 3][:len(other_)] if len(other_) > 1 else [5])}[single]
+                conc = dict(zip(other_, lens_))
+
+                def cfn(y):
+                    if SC.is_call(y, "getitem") and len(y.args) == 3 and y.args[1] == S.sym(arr + ".shape") and y.args[2].is_const:
+                        try:
+                            k_ = int(y.args[2].value) % rank
+                        except Exception:
+                            return None
+                        if k_ in conc:
+                            return S.lift(conc[k_])
+                    if y.op == "sym" and y.args[0] == "axis":
+                        return S.lift(axis)
+                    if SC.is_call(y, "len") and len(y.args) == 2 and y.args[1] == S.sym(arr + ".shape"):
+                        return S.lift(rank)
+                    if y.op == "sym" and y.args[0] == arr + ".ndim":
+                        return S.lift(rank)
+                    return None
+                try:
+                    folded = SC.fold_seq(SC.transform(x, cfn))
+                except Exception:
+                    folded = x
+                if folded.is_const:
+                    return folded
             if op in ("==", "!=") and single is not None and any(SC.is_call(y, "sum") for y in (a, b)):
-                return S.lift(single == (op == "=="))
+                return S.lift((single is True) == (op == "=="))
             return None
         if nonempty and rank is not None:
             # truth values of a non-empty array's shape / size / length
@@ -507,13 +535,14 @@ def apply_values(ctx, R="R-C16-apply"):
                 for ip, f64 in ((True, True), (True, False), (False, True)):
                     for anyzero in ((True, False) if nv else (False,)):
                         for rank, axis in ([(None, None)] if not tens else [(2, 0), (3, -1), (3, 1)]):
-                            for single, absent in [(s_, a_) for s_ in ((True, False) if (tens and not have) else (None,)) for a_ in ((True, False) if not have else (False,))]:
+                            for single, absent in [(s_, a_) for s_ in (((True, False, "mixed") if (rank or 0) > 2 else (True, False)) if (tens and not have) else (None,))
+                                                   for a_ in ((True, False) if not have else (False,))]:
                                 sc = "statistics %s, norm_var=%s, in_place=%s, %s input%s%s%s" % (
                                     "accumulated" if have else ("absent" if absent else "empty (count 0)"), nv, ip, "float64" if f64 else "other-dtype", ", a zero variance" if anyzero else "",
-                                    "" if rank is None else ", rank %d, axis %d" % (rank, axis), "" if single is None else (", single vector" if single else ", several vectors"))
+                                    "" if rank is None else ", rank %d, axis %d" % (rank, axis), "" if single is None else (", single vector" if single is True else (", several vectors" if single is False else ", several vectors along one axis, a singleton other axis")))
                                 kw = dict(stats_none=False if have else absent, have=have, norm_var=nv, ip=ip, f64=f64, anyzero=anyzero, rank=rank, axis=axis, single=single)
                                 W = x if (ip and f64) else S.call(".astype", x, S.sym("numpy.float64"))
-                                raising = (not have) and nv and (single is not False)
+                                raising = (not have) and nv and (single is None or single is True)
                                 # which exit is taken in the scenario
                                 taken = None
                                 for g, v, node in ev.returns:
@@ -557,7 +586,7 @@ def apply_values(ctx, R="R-C16-apply"):
                                     ctx.error("R-C16-float64", "cannot decide the dtype of the value %s returns in [%s]: %s" % (name, sc, S.show(got)[:160]))
                                     done = True
                                     break
-                                if not have and (single is not False):
+                                if not have and (single is None or single is True):
                                     want = S.call("filled", W, S.ZERO)
                                 else:
                                     if have:
